@@ -480,6 +480,20 @@ func (d *Device) handleOpenrgb(ctx context.Context, wg *sync.WaitGroup) {
 
 	strip := NewDeviceLedStrip(ledstrip)
 
+	// setActionLed colours the LED of the key bound to the given action; an action that is not bound to a key,
+	// or whose key has no LED on this keyboard, has no LED to set (and must not fall back to LED 0)
+	setActionLed := func(action config.Action, color openrgb.Color) {
+		code, ok := actionToEvcode[action]
+		if !ok {
+			return
+		}
+		id, ok := indexMap[code]
+		if !ok {
+			return
+		}
+		ledArray[id] = color
+	}
+
 	log.Info(fmt.Sprintf("[OpenRGB] LED update loop started"), d.logFields(logger.Debug)...)
 
 	nextFailedLedUpdateReport := time.Now()
@@ -502,74 +516,76 @@ root:
 		}
 
 		for _, key := range strip.ledSeq {
-			ledArray[nameToIndex[key]] = openrgb.Color{}
+			if id, ok := nameToIndex[key]; ok {
+				ledArray[id] = openrgb.Color{}
+			}
 		}
 
-		ledArray[indexMap[actionToEvcode[config.Panic]]] = openrgb.Color{Red: 0xff}
+		setActionLed(config.Panic, openrgb.Color{Red: 0xff})
 
-		ledArray[indexMap[actionToEvcode[config.OctaveUp]]] = white1
-		ledArray[indexMap[actionToEvcode[config.OctaveDown]]] = white1
+		setActionLed(config.OctaveUp, white1)
+		setActionLed(config.OctaveDown, white1)
 
 		if d.octave > 0 {
 			if d.octave == 1 {
-				ledArray[indexMap[actionToEvcode[config.OctaveUp]]] = white2
+				setActionLed(config.OctaveUp, white2)
 			} else {
-				ledArray[indexMap[actionToEvcode[config.OctaveUp]]] = white3
+				setActionLed(config.OctaveUp, white3)
 			}
 		}
 		if d.octave < 0 {
 			if d.octave == -1 {
-				ledArray[indexMap[actionToEvcode[config.OctaveDown]]] = white2
+				setActionLed(config.OctaveDown, white2)
 			} else {
-				ledArray[indexMap[actionToEvcode[config.OctaveDown]]] = white3
+				setActionLed(config.OctaveDown, white3)
 			}
 		}
 
-		ledArray[indexMap[actionToEvcode[config.SemitoneUp]]] = white1
-		ledArray[indexMap[actionToEvcode[config.SemitoneDown]]] = white1
+		setActionLed(config.SemitoneUp, white1)
+		setActionLed(config.SemitoneDown, white1)
 		if d.semitone > 0 {
 			if d.semitone == 1 {
-				ledArray[indexMap[actionToEvcode[config.SemitoneUp]]] = white2
+				setActionLed(config.SemitoneUp, white2)
 			} else {
-				ledArray[indexMap[actionToEvcode[config.SemitoneUp]]] = white3
+				setActionLed(config.SemitoneUp, white3)
 			}
 		}
 		if d.semitone < 0 {
 			if d.semitone == -1 {
-				ledArray[indexMap[actionToEvcode[config.SemitoneDown]]] = white2
+				setActionLed(config.SemitoneDown, white2)
 			} else {
-				ledArray[indexMap[actionToEvcode[config.SemitoneDown]]] = white3
+				setActionLed(config.SemitoneDown, white3)
 			}
 		}
 
-		ledArray[indexMap[actionToEvcode[config.MappingUp]]] = white3
-		ledArray[indexMap[actionToEvcode[config.MappingDown]]] = white3
+		setActionLed(config.MappingUp, white3)
+		setActionLed(config.MappingDown, white3)
 		if d.mapping == 0 {
-			ledArray[indexMap[actionToEvcode[config.MappingDown]]] = white1
+			setActionLed(config.MappingDown, white1)
 		}
 		if d.mapping == len(d.config.KeyMappings)-1 {
-			ledArray[indexMap[actionToEvcode[config.MappingUp]]] = white1
+			setActionLed(config.MappingUp, white1)
 		}
 
 		chanColor := channelColors[d.channel]
-		ledArray[indexMap[actionToEvcode[config.ChannelUp]]] = chanColor
-		ledArray[indexMap[actionToEvcode[config.ChannelDown]]] = chanColor
+		setActionLed(config.ChannelUp, chanColor)
+		setActionLed(config.ChannelDown, chanColor)
 		if d.channel == 0 {
-			ledArray[indexMap[actionToEvcode[config.ChannelDown]]] = openrgb.Color{
+			setActionLed(config.ChannelDown, openrgb.Color{
 				Red:   chanColor.Red / 3,
 				Green: chanColor.Green / 3,
 				Blue:  chanColor.Blue / 3,
-			}
+			})
 		}
 		if d.channel == 15 {
-			ledArray[indexMap[actionToEvcode[config.ChannelUp]]] = openrgb.Color{
+			setActionLed(config.ChannelUp, openrgb.Color{
 				Red:   chanColor.Red / 3,
 				Green: chanColor.Green / 3,
 				Blue:  chanColor.Blue / 3,
-			}
+			})
 		}
 
-		ledArray[indexMap[actionToEvcode[config.Multinote]]] = white1
+		setActionLed(config.Multinote, white1)
 
 		var hsvOfsset float64
 
